@@ -86,6 +86,12 @@ MUTANTS = [
     ("C01", R + "iteration/_engine.py", "for ascending, callables in grouped_by_ascending[::-1]:", "for ascending, callables in grouped_by_ascending:", "sort passes applied in the wrong order (bounded stand-in)"),
     ("C01", R + "iteration/_row_iterable.py", "            if self.stop is not None and n == self.stop:", "            if self.stop is not None and n > self.stop:", "SliceRowIterable yields one row too many (bounded stand-in)"),
     ("C01", R + "iteration/_engine.py", "return lambda row: all(c(row) for c in operand_callables)", "return lambda row: any(c(row) for c in operand_callables)", "convert_predicate turns AND into OR (bounded stand-in)"),
+    ("C18", R + "iteration/_engine.py", "                        return ProjectionRowIterable(target_rows, columns)", "                        return ProjectionRowIterable(target_rows.materialized(), columns)", "projection arm materializes its input at execute time"),
+    ("C18", R + "iteration/_engine.py", "                        return ChainRowIterable([self.execute(lhs), self.execute(rhs)])", "                        return ChainRowIterable([self.execute(lhs).materialized(), self.execute(rhs)])", "chain arm materializes its first operand"),
+    ("C18", R + "iteration/_engine.py", "                        return target_rows.sliced(start, stop)", "                        return target_rows.materialized().sliced(start, stop)", "slice arm materializes its input"),
+    ("C18", R + "iteration/_engine.py", "                        return SelectionRowIterable(target_rows, self.convert_predicate(predicate))", "                        return SelectionRowIterable(target_rows.to_mapping(()), self.convert_predicate(predicate))", "selection arm consumes its input through to_mapping"),
+    ("C18", R + "iteration/_row_iterable.py", "        return itertools.chain.from_iterable(self.chain)", "        return itertools.chain.from_iterable([list(c) for c in self.chain] and self.chain)", "ChainRowIterable iterates every operand twice per pass"),
+    ("C18", R + "iteration/_engine.py", "                        rows_list = list(target_rows)", "                        rows_list = list(target_rows)\n                        rows_list = list(target_rows)", "sort arm iterates its input twice"),
     ("C07", R + "_processor.py", "                    payload = self.transfer(new_target, destination, materialize_as)", "                    payload = self.transfer(target, destination, materialize_as)", "transfer hook invoked on the unprocessed target"),
     ("C07", R + "_processor.py", "                result = original.reapply(new_target, payload)\n                return result, materialize_as is not None", "                original.attach_payload(payload)\n                return original, materialize_as is not None", "processor attaches the payload to the input transfer"),
     ("C07", R + "_processor.py", "                    if new_lhs.max_rows == 0:\n                        return new_rhs, rhs_persisted", "                    if new_lhs.max_rows == 0:\n                        return new_lhs, lhs_persisted", "chain pruning returns the empty branch"),
